@@ -4,7 +4,7 @@ verus! {
 //@ include prelude/base.rs
 //@ include prelude/std_assumed.rs
 //@ shims process ripgrep_json
-//@ broadcast vax::vax_group
+//@ broadcast vax::vax_group axiom_ascii_suffix_boundary axiom_ascii_suffix_one_byte
 #[verifier::external_body]
 pub struct CommandLine { _p: u8 }
 //@ type src/utils/process.rs CallingProcess noderive
@@ -60,6 +60,31 @@ pub fn verif_parse_coloured<'b>(raw_line: &'b str) -> (r: Option<GrepLine<'b>>) 
 //@|         r == raw_result(raw_line@),
 //@rewriteall <<<&*process::calling_process()>>> => <<<&verif_calling_process()>>>
 //@rewrite <<<_parse_grep_line(&GREP_LINE_REGEX_ASSUMING_COLOR, raw_line).map(|mut grep_line| { grep_line.code = ansi::strip_ansi_codes(&grep_line.code).into(); grep_line })>>> => <<<verif_parse_coloured(raw_line)>>>
+
+// ripgrep_json::parse_line: the code of a record is its text without the line terminator - nothing else is taken off
+/// `s` without one trailing "\n" or "\r\n"
+pub open spec fn without_line_terminator(s: Seq<char>) -> Seq<char> {
+    if is_suffix(seq!['\n'], s) {
+        if is_suffix(seq!['\r'], s.drop_last()) { s.drop_last().drop_last() } else { s.drop_last() }
+    } else { s }
+}
+/// a proper prefix of `s` that is at least as long as `s` without its last character IS `s` without its last character
+pub proof fn lemma_truncated_by_one(s: Seq<char>, t: Seq<char>)
+    requires s.len() >= 1, is_prefix(t, s), is_prefix(s.drop_last(), s) ==> s.drop_last().len() <= t.len(), t != s,
+    ensures t == s.drop_last(),
+{
+    assert(is_prefix(s.drop_last(), s)) by { assert(s.subrange(0, s.len() - 1) == s.drop_last()); }
+    if t.len() == s.len() { assert(s.subrange(0, s.len() as int) == s); }
+}
+//@ region src/handlers/ripgrep_json.rs parse_line
+//@sig pub fn rg_json_code_region(text_in: String) -> (code_out: String)
+//@fromafter <<<Some(ripgrep_line) => {>>>
+//@until <<<Some(grep::GrepLine { grep_type: crate::config::GrepType::Ripgrep, line_type: ripgrep_line._type,>>>
+//@tail code
+//@| ensures code_out@ == without_line_terminator(text_in@),  // @C16:the.code.of.an.rg.json.record.is.its.text.without.the.line.terminator.and.nothing.else.is.taken.off
+//@rewrite <<<ripgrep_line.data.lines.text>>> => <<<text_in>>>
+//@before? <<<if code.ends_with('\r') {>>>| proof { lemma_truncated_by_one(text_in@, code@); }
+//@after? <<<if code.ends_with('\r') { code.truncate(code.len() - 1);>>>| proof { lemma_truncated_by_one(text_in@.drop_last(), code@); }
 
 // handle_grep_line: which reading of the line is used
 //@ region src/handlers/grep.rs StateMachine::handle_grep_line
